@@ -26,7 +26,10 @@ HOST_EXACT = {"os.strerror", "os.name", "os.uname", "os.sep", "os.linesep", "sys
               # text <-> bytes through the host's file-system / locale encoding and error handler
               "os.fsdecode", "os.fsencode", "sys.getfilesystemencoding", "sys.getfilesystemencodeerrors",
               "locale.getpreferredencoding", "locale.getencoding", "os.device_encoding", "os.path.sep", "os.pathsep",
-              "os.getcwd", "os.path.expanduser", "time.localtime", "time.strftime", "time.tzname"}
+              "os.getcwd", "os.path.expanduser", "time.localtime", "time.strftime", "time.tzname",
+              # C types whose width is the host's data model (long is 32 bits on 64-bit Windows, 64 on LP64 hosts)
+              "ctypes.c_long", "ctypes.c_ulong", "ctypes.c_size_t", "ctypes.c_ssize_t", "ctypes.c_void_p", "ctypes.c_wchar",
+              "ctypes.c_longdouble", "ctypes.c_time_t", "sys.maxunicode", "sys.int_info", "sys.float_info"}
 # host independent helpers of those modules (pure functions of their argument)
 PURE = {"socket.inet_ntoa", "socket.inet_ntop", "socket.inet_aton", "socket.inet_pton", "socket.ntohs", "socket.ntohl",
         "socket.htons", "socket.htonl", "stat.S_IMODE", "stat.S_IFMT"}
@@ -315,7 +318,9 @@ FAMILY_OF: dict = {}        # registry key -> the family module that registers i
 #                             on which file of the family the helper that reads the host table lives in)
 
 
-WITNESS = {"errno.errorcode": "errno 35 renders EDEADLOCK on Linux, EAGAIN on Darwin",
+WITNESS = {"ctypes.c_long": "a 64-bit word of 5 GiB reads 1073741824 where C long has 32 bits (64-bit Windows)",
+           "ctypes.c_ulong": "a 64-bit word is cut to 32 bits where C long has 32 bits (64-bit Windows)",
+           "errno.errorcode": "errno 35 renders EDEADLOCK on Linux, EAGAIN on Darwin",
            "socket.SOL_SOCKET": "SOL_SOCKET is 1 on Linux, 0xffff on Darwin: level 0xffff is not recognised",
            "signal.Signals": "signal 10 is SIGUSR1 on Linux, SIGBUS on Darwin",
            "socket.AddressFamily": "family 30 is AF_INET6 on Darwin, AF_TIPC on Linux",
